@@ -209,7 +209,10 @@ Proof.
       split; [intros Heq; apply Hmut; right; left; symmetry; exact Heq|].
       split; [apply Hc|].
       intros Heq. apply negb_true_iff in Hres. apply Z.eqb_eq in Heq. rewrite Heq in Hres.
-      cbn [andb] in Hres. unfold reserved_sig. exact Hres.
+      cbn [andb] in Hres.
+      repeat (apply orb_false_iff in Hres; destruct Hres as [Hres ?]).
+      unfold reserved_sig.
+      repeat match goal with H : _ = false |- _ => rewrite H; clear H end. reflexivity.
 Qed.
 
 (* with an exclusion list for a (and no targeted selector) halmos also selects view / pure
